@@ -18,11 +18,11 @@ import (
 // run report → evidence file
 
 type verifReport struct {
-	Prop  string
-	Tier  string
-	Seed  int64
-	Level string
-	start time.Time
+	Prop   string
+	Tier   string
+	Seed   int64
+	Level  string
+	start  time.Time
 	budget time.Duration
 
 	States, Transitions, Traces int64 // model-checking counters
@@ -344,6 +344,8 @@ func VerifMain(args []string) int {
 		return 2
 	}
 	switch args[0] {
+	case "c13worker":
+		return verifC13Worker(args[1:])
 	case "check":
 		prop := args[1]
 		tier := "quick"
